@@ -130,6 +130,11 @@ func c13Check(c c13Case) error {
 			left = append(left, behind{b, c13Owner{ivs: append([]c13Iv(nil), owner.ivs...)}, i})
 			b = nb
 		case "attach":
+			if op.End+1 == op.Start {
+				// an empty range (both ends aligned): accepted or rejected, it covers no address and changes no routing
+				_ = rig.Safe(func() error { return b.Attach(stubs[op.Mem], "m", op.Start, op.End) })
+				break
+			}
 			if err := b.Attach(stubs[op.Mem], "m", op.Start, op.End); err != nil {
 				return fmt.Errorf("%s: Attach($%06X,$%06X) of an aligned range failed: %v", what, op.Start, op.End, err)
 			}
@@ -355,6 +360,11 @@ func c13Gen(t *rapid.T) c13Case {
 			e := blk("e")
 			if e < s {
 				s, e = e, s
+			}
+			if s >= 16 && rapid.IntRange(0, 11).Draw(t, "empty-range") == 5 {
+				// a device of size zero attached as (base, base+size-1): both ends are aligned, the range holds no address
+				c.Ops = append(c.Ops, c13Op{Kind: "attach", Mem: rapid.IntRange(0, 3).Draw(t, "mem"), Start: s, End: s - 1})
+				continue
 			}
 			c.Ops = append(c.Ops, c13Op{Kind: "attach", Mem: rapid.IntRange(0, 3).Draw(t, "mem"), Start: s, End: e + 15})
 		case k == 4:
@@ -642,6 +652,10 @@ func TestC13(t *testing.T) {
 				for _, op := range c.Ops {
 					switch op.Kind {
 					case "attach":
+						if op.End+1 == op.Start {
+							ev.Class("attach-of-an-empty-range")
+							continue
+						}
 						for _, iv := range owner.ivs {
 							if iv.lo <= op.End>>4 && iv.hi >= op.Start>>4 {
 								ev.Class("re-attach-over-attached-block")
